@@ -81,10 +81,16 @@ class Prop:
         pi, pm = self.project(op, impl), self.project(op, model)
         if pi == pm:
             return True
-        if self.named_errors is not None and pi.startswith("err ") and pm.startswith("err "):
-            km = pm.split(" ")[1] if " " in pm else ""
-            if km not in self.named_errors:
-                return True
+        if self.named_errors is not None:
+            for pre in ("err ", "noimg "):
+                # (`noimg <Kind>`: the constructor rejected the buffer — which of several applicable checks
+                # fires first is as unspecified as any other unnamed error kind)
+                if pi.startswith(pre) and pm.startswith(pre):
+                    ki = pi.split(" ")[1] if " " in pi else ""
+                    km = pm.split(" ")[1] if " " in pm else ""
+                    # a kind the statement names must match exactly, whichever side reports it
+                    if km not in self.named_errors and ki not in self.named_errors:
+                        return True
         return False
 
     def oracle(self, op, impl, model, spec):
@@ -130,7 +136,7 @@ class C20(Prop):
 class C14(Prop):
     pid = "C14"
     title = "base relocations"
-    thm_modules = ["PeliteModel.Thm.C14"]
+    thm_modules = ["PeliteModel.Thm.C14", "PeliteModel.Thm.ImageLayout"]
     gens = [gen_pure.gen_relocs_raw, gen_pure.gen_relocs_rawat, gen_pure.gen_relocs_hist, gen_pure.gen_relocs_build]
 
     def oracle(self, op, impl, model, spec):
@@ -187,7 +193,7 @@ class C07(Prop):
     named_errors = {"PeMagic"}                  # "rejected with the dedicated wrong-format error"
     pid = "C07"
     title = "headers"
-    thm_modules = ["PeliteModel.Thm.C07", "PeliteModel.Thm.C07Checksum", "PeliteModel.Thm.C07Layout"]
+    thm_modules = ["PeliteModel.Thm.C07", "PeliteModel.Thm.C07Checksum", "PeliteModel.Thm.C07Layout", "PeliteModel.Thm.ImageLayout"]
     gens = [gen_img.gen_c07_corpus, gen_img.gen_c07, gen_img.gen_c07_boundaries]
 
     def oracle(self, op, impl, model, spec):
